@@ -38,7 +38,7 @@ std::string knownClass(const std::string& text, const m6::Scan& sc) { return glu
 const std::vector<std::string> kPlain = {
     "a", " ", "b", "Z", "1", "a", " ", "e", "t", " ",
     "\xD0\xB6", "\xC3\xA9", "\xE2\x84\xAC", "\xE4\xB8\xAD", "\xF0\x9F\x98\x80", "\xF0\x9D\x94\xB8", "\xD0\xB6", "\xE2\x84\xAC",
-    ",", "-", "0", "\n", "@", "{", "}", "|", "@", "{", "}", "|"};
+    ",", "-", "0", "\n", "@", "{", "}", "|", "x", "{", "}", "|"};
 const std::vector<std::string> kNames = {"X1", "X2", "X3", "D11", "abc", "T", "S1"};
 const std::vector<std::string> kUnknownTags = {"foo", "PLUR", "UNKN", "nom", "nomnn", "", "1", "Nomn"};
 const std::vector<std::string> kCollabTexts = {"basic", "x", "", "\xD1\x91\xD0\xB6", "void", "long companion text", "a,b", "a{b}c", "\xE4\xB8\xAD\xE6\x96\x87",
@@ -50,9 +50,12 @@ const std::vector<std::string> kMalformed = {
     "@{}", "@{ }", "@{|}", "@{ | }", "@{ || }", "@{X1}", "@{X1|}", "@{|nomn}", "@{X1|foo}", "@{X1|NOMN}", "@{-1a|text}", "@{+1|a}", "@{1|a|b}",
     "@{X1|nomn|sing|0|1}", "@{\xD0\xB6" "1|nomn}", "@{1X|nomn}", "@{X1,nomn}", "@{X2,datv,sing}", "@{-|a}", "@{- 1|a}", "@{ -1|a}", "@ {X1|nomn}", "@{X1|nomn",
     "@{", "@", "@{X1|nomn @{X2|sing}}", "@{-1|see @{X1|nomn}}", "@{abc @{X1|nomn}", "@{X1|nomn}}", "{@{X1|nomn}}", "@{X1|foo|bar}", "@{X1|UNKN}",
-    "@@{X1|nomn}", "@@@{X1|nomn}", "@@{-1|a}", "@{{X1|nomn}}", "@{X1|{nomn}}", "@{foo @{-1|a} @{X2|datv} }", "@{|}@{X1|sing}", "@{1.5|a}", "@{X1|nomn,sing|0|}"};
-const std::vector<std::string> kUnspecified = {"@{X1||nomn}", "@{X1|nomn,sing|0}", "@{X1 |nomn}", "@{X1|nomn|0a}", "@{X1|nomn|}", "@{X1|nomn|sing|}",
-                                               "@{40000|t}", "@{-32769|t}", "@{99999999999|t}", "@{-2147483649|t}", "@{2147483648|}"};
+    "@@@{X1|nomn}", "@{{X1|nomn}}", "@{X1|{nomn}}", "@{foo @{-1|a} @{X2|datv} }", "@{|}@{X1|sing}", "@{1.5|a}", "@a@{X1|nomn}", "@{X1|nomn}@", "@{X1|\xD0\xB6}"};
+// candidates without a documented reading (the model answers Unspecified)
+const std::vector<std::string> kUnspecified = {"@{X1||nomn}", "@{X1|nomn,sing|0}", "@{X1 |nomn}", "@{X1|nomn|0a}", "@{X1|nomn|1per}", "@{X\xD0\xB6|nomn}", "@{X{}|nomn}"};
+// the classes of the listed known findings (rare: they are excluded while the finding is listed)
+const std::vector<std::string> kKnownDefect = {"@@{X1|nomn}", "@@{-1|a}", "@{X1|nomn|}", "@{X1|nomn|sing|}", "@{X1|nomn,sing|0|}", "@{40000|t}", "@{-32769|t}",
+                                               "@{99999999999|t}", "@{-2147483649|t}", "@{2147483648|}"};
 
 std::string genPlain(Ctx& c, int maxLen) {
   std::string s;
@@ -121,7 +124,7 @@ GenText genText(Ctx& c, int profile) {
     const int entTo = plainTo + (profile == 0 ? 22 : 34);
     const int colTo = entTo + (profile == 0 ? 12 : 16);
     const int legTo = colTo + (profile == 0 ? 8 : 8);
-    const int malTo = legTo + (profile == 0 ? 22 : profile == 1 ? 8 : 2);
+    const int malTo = legTo + (profile == 0 ? 22 : profile == 1 ? 6 : 2);
     if (k < plainTo) {
       if (profile == 2) { const int m = c.ipick(0, 4); for (int j = 0; j < m; ++j) g.text += c.oneof(std::vector<std::string>{"a", " ", "\xD0\xB6", "\xE2\x84\xAC", "\xF0\x9F\x98\x80", "b"}); }
       else g.text += genPlain(c, 6);
@@ -130,7 +133,8 @@ GenText genText(Ctx& c, int profile) {
     else if (k < colTo) { g.text += genCollabRef(c); g.hasCollab = true; }
     else if (k < legTo) { g.text += genLegacyRef(c); g.hasLegacy = true; }
     else if (k < malTo) { g.text += c.oneof(kMalformed); g.hasMalformedSeg = true; }
-    else if (profile != 2) { g.text += c.oneof(kUnspecified); g.hasUnspecifiedSeg = true; }
+    else if (profile != 2 && k < 98) { g.text += c.oneof(kUnspecified); g.hasUnspecifiedSeg = true; }
+    else if (profile != 2 && c.chance(1, 3)) { g.text += c.oneof(kKnownDefect); g.hasUnspecifiedSeg = true; }
     else g.text += " ";
   }
   return g;
